@@ -54,6 +54,10 @@ class World:
             dcols[c] = fn(c, R)(u)
         self.data = frames.base_frame(root, self.inData(u), dcols, "geographic_unit_fips")
         self.current = frames.base_frame(root, self.inFeed(u), ccols, "geographic_unit_fips")
+        # the baseline table as __init__ keeps it: a superset of the joined table (rows can be dropped from the latter)
+        self.inBase = fn("inBaseline", B)
+        h.forall_rows(root, z3.Implies(self.inData(u), self.inBase(u)))
+        self.preprocessed = frames.base_frame(root, self.inBase(u), {"postal_code": dcols["postal_code"], "geographic_unit_fips": fips(u)}, "geographic_unit_fips")
         self.cols = dcols
         # V2: counts are non-negative, baseline + 1 >= 1
         for e in estimands:
@@ -62,7 +66,7 @@ class World:
         h.ctx.assume(dcols["percent_expected_vote"] >= 0)
 
     def handler(self, geographic_unit_type="county"):
-        return Obj(*_cls(CDH), attrs={"data": self.data, "current_data": self.current, "estimands": self.estimands, "geographic_unit_type": geographic_unit_type, "n_minimum_for_outlier_detection_model": 20})
+        return Obj(*_cls(CDH), attrs={"data": self.data, "current_data": self.current, "preprocessed_data": self.preprocessed, "estimands": self.estimands, "geographic_unit_type": geographic_unit_type, "n_minimum_for_outlier_detection_model": 20})
 
 
 def _cls(q):
